@@ -152,9 +152,12 @@ def main(run):
         # a seeded tenth (every pair of constructs occurs about three times)
         deep = [x for x in rows if len(x["chain"]) == 2]
         rows = [x for x in rows if len(x["chain"]) < 2] + rng.sample(deep, len(deep) // 10)
-    if len(rows) > 120000:
-        short = [x for x in rows if len(x["chain"]) <= 2]
-        rows = short + rng.sample([x for x in rows if len(x["chain"]) > 2], 120000 - len(short))
+    if len(rows) > 24000:
+        # thorough tier: every chain of <= 1 construct, seeded samples of the chains of 2 and of 3 (a run over all of
+        # them takes hours: each program compiles a prelude of twelve macro definitions)
+        two = [x for x in rows if len(x["chain"]) == 2]
+        three = [x for x in rows if len(x["chain"]) > 2]
+        rows = [x for x in rows if len(x["chain"]) < 2] + rng.sample(two, min(len(two), 11000)) + rng.sample(three, min(len(three), 12000))
     skipped = {}
     results = pmap(_one, rows)
     for rec, got in zip(rows, results):
